@@ -1358,6 +1358,7 @@ C13_COMMON = """type pt@ struct{ x, y int }
 
 func (p pt@) Sum() int      { return p.x + p.y }
 func (p *pt@) Shift(d int)  { p.x += d; p.y -= d }
+func (p *pt@) Add(d int) int { p.x += d; return p.x }
 func idg@[T any](x T) T     { return x }
 func dbl@(x int) int        { return x + x }
 
@@ -1373,6 +1374,10 @@ C13_BODIES = [
     ("eta_funcvar", "h := func(x int) int { return x + 1 }\nf := func(x int) int { return h(x) }\nr := f(a)\nh = func(x int) int { return x + 2 }\nreturn (r << 4) ^ f(b)"),
     ("eta_method_value", "p := pt@{a, b}\nget := func() int { return p.Sum() }\nr := get()\np = pt@{b, 1}\nreturn (r << 4) ^ get()"),
     ("eta_ptr_receiver", "var q *pt@\nsh := func(d int) { q.Shift(d) }\nq = &pt@{a, b}\nsh(3)\nreturn q.x ^ (q.y << 3)"),
+    ("eta_ptr_receiver_return", "cur := &pt@{a, 0}\nadd := func(d int) int { return cur.Add(d) }\nr := add(1)\ncur = &pt@{b, 0}\nr = (r << 4) ^ add(2)\nreturn (r << 4) ^ cur.x"),
+    ("eta_ptr_receiver_nil_first", "var cur *pt@\nadd := func(d int) int { return cur.Add(d) }\ncur = &pt@{a, 0}\nreturn add(b)"),
+    ("eta_field_func", "type holder struct{ f func(int) int }\nh := holder{f: func(x int) int { return x + 1 }}\ncall := func(x int) int { return h.f(x) }\nr := call(a)\nh.f = func(x int) int { return x + 2 }\nreturn (r << 4) ^ call(a)"),
+    ("eta_iface_method", "var sm interface{ Sum() int } = pt@{a, 1}\nget := func() int { return sm.Sum() }\nr := get()\nsm = pt@{b, 2}\nreturn (r << 4) ^ get()"),
     ("eta_builtin", "ln := func(s []int) int { return len(s) }\nreturn ln(tbl@) + a"),
     ("eta_conversion", "cv := func(x int) int32 { return int32(x) }\nreturn int(cv(a)) + b"),
     ("eta_generic_inferred", "f := func(x int) int { return idg@(x) }\nreturn f(a) + b"),
@@ -1432,6 +1437,13 @@ def c12_injections():
     I.append(("select", [("raw", "sc := make(chan int, 1)\nsc <- a\nselect {\ncase sv := <-sc:\n\tYield(sv + 906)\ndefault:\n\tYield(b + 907)\n}")]))
     I.append(("defer", [("raw", "defer rt.Emit(rt.EFF, 908)"), Y("a + 909")]))
     I.append(("defer_yield", [("raw", "defer Yield(a + 910)"), Y("b + 911")]))
+    I.append(("defer_in_if", [("raw", "if g3 {\n\tdefer rt.Emit(rt.EFF, 940)\n}"), Y("a + 941"), ("eff", 942)]))
+    I.append(("defer_in_for", [("raw", "for di := 0; di < 2; di++ {\n\tdefer rt.Emit(40, di)\n}"), Y("a + 943"), ("eff", 944)]))
+    I.append(("defer_in_block", [("raw", "{\n\tdefer rt.Emit(rt.EFF, 945)\n}"), Y("a + 946"), ("eff", 947)]))
+    I.append(("defer_in_switch", [("raw", "switch a & 1 {\ncase 0:\n\tdefer rt.Emit(rt.EFF, 948)\n}"), Y("a + 949"), ("eff", 950)]))
+    I.append(("goto_in_block_local", [("raw", "{\n\tgi := 0\nLg:\n\tgi++\n\tif gi < 2 {\n\t\tgoto Lg\n\t}\n\trt.Emit(40, gi)\n}"), Y("a + 951")]))
+    I.append(("labelled_in_if_local", [("raw", "if g3 {\nLy:\n\tfor li := 0; li < 3; li++ {\n\t\tfor lj := 0; lj < 2; lj++ {\n\t\t\tif lj == 1 {\n\t\t\t\tcontinue Ly\n\t\t\t}\n\t\t\trt.Emit(40, li*10+lj)\n\t\t}\n\t}\n}"), Y("a + 952")]))
+    I.append(("select_in_if_local", [("raw", "if g3 {\n\tsc := make(chan int, 1)\n\tsc <- a\n\tselect {\n\tcase sv := <-sc:\n\t\trt.Emit(40, sv)\n\tdefault:\n\t}\n}"), Y("a + 953")]))
     I.append(("fallthrough", [("raw", "switch a & 1 {\ncase 0:\n\tYield(a + 912)\n\tfallthrough\ncase 1:\n\tYield(b + 913)\n}")]))
     I.append(("fallthrough_trivial_case", [("raw", "switch a & 1 {\ncase 0:\n\trt.Emit(rt.EFF, 914)\n\tfallthrough\ncase 1:\n\tYield(b + 915)\n}")]))
     I.append(("range_ptr_array", [("raw", "pa := [3]int{a, b, a + b}\nfor pi, pv := range &pa {\n\tYield(pv + pi + 916)\n}")]))
@@ -1595,6 +1607,11 @@ def il_driver(name, k, m, makers):
 EXPR_HELPERS = """type pt@ struct{ x, y int }
 
 func idf@(x int) int { return x }
+
+func efn@(x int) int {
+	rt.Emit(rt.EFF, 960+x)
+	return x * 3
+}
 """
 
 INT_FORMS = [
@@ -1603,6 +1620,9 @@ INT_FORMS = [
     ("slicelit", "[]int{{{v}, 1}}[0]"), ("structlit_field", "pt@{{{v}, 1}}.x"), ("funclit", "func() int {{ return {v} }}()"),
     ("lenlit", "len([]int{{{v}}}) + {v}"), ("negcall", "-idf@({v})"), ("notnot", "map[bool]int{{true: 1, false: 0}}[!({v} > 0)] + {v}"),
     ("deref", "*(&{v})"), ("eff", "rt.Eff(950, {v})"), ("negeff", "-rt.Eff(951, {v})"),
+    # literal-only arguments: the value does not change, but WHEN the call runs is observable
+    ("call_lit", "efn@(7)"), ("call_neglit", "efn@(-1)"), ("conv_call_lit", "int(int32(efn@(2)))"), ("paren_call_lit", "(efn@(3))"),
+    ("call_lit_plus_var", "efn@(4) + {v}"), ("lit", "7"), ("neglit", "-7"), ("conv_lit", "int(int32(5))"),
 ]
 
 ANY_FORMS = [
@@ -1632,6 +1652,13 @@ def exprform_programs():
                 "in_switch": [("decl", "x", "a"), ("yield", "0"), ("assign", "x", "x + b"), ("switch", None, "n", [("1", [("yield", E("x"))])], [("yield", E("x") if ret == "any" else E("x") + " + 1")])],
             }
             for sname, body in shapes.items():
+                # literal-only forms do not mention the variable: keep it used
+                nb = []
+                for st in body:
+                    nb.append(st)
+                    if st[0] == "decl" and st[1] in ("x", "w", "s"):
+                        nb.append(("assign", "_", st[1]))
+                body = nb
                 if ret == "any":
                     body = [tuple(("yield", y[1] if not y[1].isdigit() and y[1] not in ("i",) else y[1]) if y[0] == "yield" else y for y in st) if False else st for st in body]
                 pid = "x_%s_%s_%s" % (ret, name, sname)
